@@ -25,7 +25,7 @@ def gen_cases_for(seed_, n):
 
 
 # naming defects that are the root cause of whatever load failure follows in the same module
-ROOT_CAUSES = ("name-shadows-import", "class-field-name-clash", "duplicate-field-name", "duplicate-class-name")
+ROOT_CAUSES = ("name-shadows-import", "class-field-name-clash", "duplicate-field-name:folded-keys", "duplicate-class-name:sanitised")
 PYD_RESERVED = re.compile(r'Field name "(\w+)" shadows a BaseModel attribute')
 
 
